@@ -114,7 +114,7 @@ func backendScen(c *Ctx) {
 	var ops []bop
 	faultful := c.Opt("faults", "1") == "1"
 	for i := 0; i < nOps; i++ {
-		o := bop{kind: r.Weighted(6, 2, 2, 3, 1), k: keys[r.Intn(len(keys))]}
+		o := bop{kind: r.Weighted(6, 2, 2, 3, 1, 2), k: keys[r.Intn(len(keys))]}
 		o.known = r.Chance(2, 3)
 		switch o.kind {
 		case 0:
@@ -142,7 +142,7 @@ func backendScen(c *Ctx) {
 					o.fault.Kind = []string{"err", "404", "size-unknown"}[r.Intn(3)]
 				}
 			}
-		case 2:
+		case 2, 5:
 			m := 1 + r.Intn(4)
 			for j := 0; j < m; j++ {
 				k := keys[r.Intn(nb)]
@@ -349,6 +349,40 @@ func backendScen(c *Ctx) {
 			case 4:
 				st.Down = !st.Down
 				s.Fault("backend.down-toggle")
+			case 5:
+				// C06 with a backend: an ActionResult whose output files live
+				// locally, only in the backend, or nowhere
+				ar := &pb.ActionResult{ExitCode: int32(i + 1)}
+				allThere := true
+				why := ""
+				for j, m := range o.multi {
+					ar.OutputFiles = append(ar.OutputFiles, &pb.OutputFile{Path: fmt.Sprintf("o/%d", j), Digest: world.Digest(m.hash, int64(len(m.data)))})
+					_, inB := st.Objects[world.ObjectName(m.kind, m.hash, v2)]
+					if !(localHas(m) || (inB && int64(len(m.data)) <= maxProxy && !st.Down)) {
+						allThere = false
+						why = short(m.hash) + " is neither local nor in the backend"
+					}
+				}
+				arKey := world.HashOf([]byte(fmt.Sprintf("bk-ar-%d", i)))
+				expectedNames[world.ObjectName(cache.AC, arKey, v2)] = true
+				if res, _ := cl.UpdateAR("", arKey, ar); !res.OK {
+					s.Violate("C11.accept", bk+"/UpdateActionResult", "valid ActionResult refused: %s %s", res.Code, res.Err)
+					break
+				}
+				s.Settle()
+				gr, got := cl.GetAR("", arKey, world.InlineReq{})
+				s.Settle()
+				hit := gr.OK && got != nil
+				s.Note("%d getAR %d refs allThere=%v -> %s", i, len(o.multi), allThere, gr.Code)
+				if hit && !allThere {
+					s.Violate("C06.hit-iff", bk+"/GetActionResult", "answered a hit although %s", why)
+				}
+				if !hit && allThere && gr.Code != "NotFound" {
+					s.Probe("getAR_error_" + gr.Code)
+				}
+				if !hit && allThere && !st.Down && gr.Code == "NotFound" {
+					s.Violate("C06.hit-iff", bk+"/GetActionResult", "every referenced blob is present locally or in the backend but the answer is a miss")
+				}
 			}
 			c.Res.Ops++
 			if s.Failed() {
